@@ -45,6 +45,39 @@ pub fn judge(x: &[u8], rec: &mut Recorder, simulate: bool) {
     // every input goes through every entry point (an input that does not meet the precondition
     // is not judged, but the call is part of the history the next input is parsed after); once
     // before and - when the receiver runs - once after the receiver simulation
+    // "because no later byte can change it": the verdict on an input that meets the precondition
+    // is the verdict on every extension of it (checked for three continuations, real vs real)
+    if fin && hash_bytes(x) % 2 == 0 {
+        let base = entries(x);
+        for t in [&b"\r\n"[..], &b"GET / HTTP/1.1\r\nHost: a\r\n\r\n"[..], &b"PROXY UNKNOWN\r\n"[..], &b"x"[..]] {
+            let mut y = x.to_vec();
+            y.extend_from_slice(t);
+            for ((entry, o), (_, o2)) in base.iter().zip(entries(&y).iter()) {
+                rec.event();
+                if matches!(o, O1::Panic(_)) || matches!(o2, O1::Panic(_)) {
+                    continue;
+                }
+                // the verdict = the success (same header, same addresses) or "terminal error"; which
+                // of two terminal errors is reported may depend on later bytes (a line of 107+
+                // bytes is HeaderTooLong until a CR arrives and InvalidUtf8 afterwards) and is
+                // not part of the statement
+                let same = match (o, o2) {
+                    (O1::Ok { .. }, O1::Ok { .. }) => o == o2,
+                    (O1::Err { inc: false, comp: true, .. }, O1::Err { inc: false, comp: true, .. }) => true,
+                    _ => false,
+                };
+                if !same {
+                    rec.violation(
+                        &format!("later-bytes-change-the-verdict:{}", entry),
+                        enc_case("v1", x),
+                        skeleton_text(x),
+                        format!("{}: input {:?} already has a final verdict {}, but followed by {:?} the verdict is {}", entry, show(x, 160), o.class(), show(t, 40), o2.class()),
+                    );
+                    break;
+                }
+            }
+        }
+    }
     for pass in 0..2 {
         if pass == 1 {
             if !(simulate && x.len() <= 260) {
